@@ -330,9 +330,11 @@ impl GraphInline {
                 .iter()
                 .flat_map(|inline| inline.ref_keys())
                 .collect(),
-            GraphInline::Link(_, _, _, _) => {
+            // (only what counts as a reference to a note: an address is not indexed)
+            GraphInline::Link(_, _, _, _) if self.is_ref() => {
                 self.ref_key().map(|key| vec![key]).unwrap_or_default()
             }
+            GraphInline::Link(_, _, _, _) => vec![],
             GraphInline::Image(_, _, inlines) => inlines
                 .iter()
                 .flat_map(|inline| inline.ref_keys())
